@@ -139,6 +139,7 @@ theorem test_congr (r s : RuleM) (hc : r.cond = s.cond) (hk : r.cast = s.cast)
     r.test doc copy = s.test doc copy := by
   have ht := ruleTestOn_congr r s hc hsel
   unfold RuleM.test
+  rw [castSource_eq]
   simp only [hk, hsel doc, ht]
 
 /-- the rebuilt rule against the original -/
